@@ -72,9 +72,10 @@ type Frame struct {
 }
 
 type deferred struct {
-	call *ssa.CallCommon
-	args []Val
-	pos  token.Pos
+	call    *ssa.CallCommon
+	args    []Val
+	pos     token.Pos
+	closure *FuncV
 }
 
 type panicExit struct {
@@ -276,11 +277,26 @@ func (ex *Exec) runBody(fr *Frame, st *State, reach Term) {
 func (ex *Exec) runDeferred(fr *Frame, d deferred, st *State, reach Term, recovered *Term) Term {
 	fn, ok := d.call.Value.(*ssa.Function)
 	if !ok {
+		if mc, isClosure := d.call.Value.(*ssa.MakeClosure); isClosure && d.closure != nil {
+			// a deferred closure that does not recover: run its body (inlined) on this exit
+			cf := mc.Fn.(*ssa.Function)
+			if usesRecover(cf) {
+				panic(unsupported("deferred closure calling recover() in %s", fr.fn))
+			}
+			ex.inlineCall(fr, cf, d.closure.Free, d.args, st, reach, d.pos)
+			fr.newReach = nil
+			return False
+		}
 		panic(unsupported("deferred call of a non-static function in %s", fr.fn))
 	}
 	c := ex.prog.Contracts.Funcs[fn.String()]
 	if c == nil {
-		panic(unsupported("deferred function %s needs a contract", fn))
+		if usesRecover(fn) {
+			panic(unsupported("deferred function %s calls recover() and needs a contract", fn))
+		}
+		ex.inlineCall(fr, fn, nil, d.args, st, reach, d.pos)
+		fr.newReach = nil
+		return False
 	}
 	var names []string
 	for _, p := range fn.Params {
@@ -535,6 +551,11 @@ func (ex *Exec) enterLoop(fr *Frame, li *loopInfo, states []*State, conds []Term
 		env := ex.loopEnv(fr, li, st)
 		g := ex.evalBool(inv.E, env)
 		ex.vc.assume(Implies(reach, g))
+	}
+	if ex.dry == 0 {
+		cv := ex.vc.oblige("vacuity", fr.name(fmt.Sprintf("vacuity:loop%d.cover", li.ord)), reach, False, "")
+		cv.ExpectSat = true
+		cv.Descr = "the loop invariant (together with everything assumed before) is satisfiable at the loop head"
 	}
 	if ls.Decreases != nil {
 		env := ex.loopEnv(fr, li, st)
@@ -819,6 +840,10 @@ func (ex *Exec) instr(fr *Frame, b *ssa.BasicBlock, in ssa.Instruction, st *Stat
 		d := deferred{call: &x.Call, pos: x.Pos()}
 		for _, a := range x.Call.Args {
 			d.args = append(d.args, ex.get(fr, a, st))
+		}
+		if mc, ok := x.Call.Value.(*ssa.MakeClosure); ok {
+			fv := ex.get(fr, mc, st).(FuncV)
+			d.closure = &fv
 		}
 		fr.defers = append(fr.defers, d)
 	case *ssa.If:
